@@ -131,7 +131,7 @@ impl Property for C05 {
          oracle = reference evaluator of the statement over exact rationals; non-trivial = (>=1 active and >=1 removed constraint) or rejection case or state omitting an irrelevant variable; distinct = sha256(instance, state)"
     }
     fn required_labels(&self) -> Vec<String> {
-        ["flag-relaxed!=flag-all", "tolerance-inside", "tolerance-outside", "bound-reject", "bound-tolerated", "missing-used", "irrelevant-filled", "dependency", "fixed-variable", "removed-constraint", "feasible=true", "feasible=false", "state-has-foreign-id", "state-repeats-fixed-variable", "dependency-on-fixed", "big-bound-on", "big-bound-steps-outside", "big-linear-function"]
+        ["flag-relaxed!=flag-all", "tolerance-inside", "tolerance-outside", "bound-reject", "bound-tolerated", "missing-used", "irrelevant-filled", "dependency", "fixed-variable", "removed-constraint", "feasible=true", "feasible=false", "state-has-foreign-id", "state-repeats-fixed-variable", "dependency-on-fixed", "big-bound-on", "big-bound-steps-outside", "big-linear-function", "missing-variable-used-only-by-a-dependency", "bound-case-on-fixed-variable"]
             .iter()
             .map(|s| s.to_string())
             .collect()
@@ -206,6 +206,21 @@ impl Property for C05 {
                         used.extend(syntactic_ids(f));
                     }
                 }
+                // ... or that only a dependency function refers to (its own keys excepted)
+                if imask & 0x400 != 0 {
+                    let mut dep_only = std::collections::BTreeSet::new();
+                    for f in gi.inst.decision_variable_dependency.values() {
+                        for id in syntactic_ids(f) {
+                            if !gi.inst.decision_variable_dependency.contains_key(&id) && !gi.fixed.contains(&id) && !used.contains(&id) {
+                                dep_only.insert(id);
+                            }
+                        }
+                    }
+                    if !dep_only.is_empty() {
+                        used = dep_only;
+                        ctx.label("missing-variable-used-only-by-a-dependency");
+                    }
+                }
                 let used: Vec<u64> = used.into_iter().collect();
                 if !used.is_empty() {
                     let victim = *t.pick(&used);
@@ -222,7 +237,8 @@ impl Property for C05 {
                     .iter()
                     .filter(|v| {
                         let (lo, hi) = effective_bound(v).unwrap();
-                        (lo.is_finite() || hi.is_finite()) && !gi.dependent.contains(&v.id) && !gi.fixed.contains(&v.id)
+                        // (a variable fixed earlier is a variable too: a given value outside its bound is outside its bound)
+                        (lo.is_finite() || hi.is_finite()) && !gi.dependent.contains(&v.id) && (!gi.fixed.contains(&v.id) || imask & 0x800 != 0)
                     })
                     .collect();
                 let big = t.p(72);
@@ -255,6 +271,9 @@ impl Property for C05 {
                     let dist = if far { 2e-7 } else { 0.5e-7 };
                     let x = if lo.is_finite() && (!hi.is_finite() || t.coin()) { lo - dist } else { hi + dist };
                     state.entries.insert(v.id, x);
+                    if gi.fixed.contains(&v.id) {
+                        ctx.label("bound-case-on-fixed-variable");
+                    }
                     ctx.label(if far { "bound-reject" } else { "bound-tolerated" });
                     if gi.irrelevant.contains(&v.id) {
                         ctx.label("bound-case-on-irrelevant");
